@@ -91,6 +91,16 @@ def transformations(sc):
             b["crop"]["harvest_date"] = f"{h.month}/{h.day}"
             return b
         T["explicit_default_harvest"] = explicit_harvest
+    elif sc["crop"].get("harvest_date") is None:
+        # thermal crops: the default depends on the weather of the first season - it is read from a model initialised on the base configuration
+        def explicit_harvest_thermal(s):
+            import scenario as S_
+            m = S_.make_model(s)
+            m._initialize()
+            b = copy.deepcopy(s)
+            b["crop"]["harvest_date"] = str(m._param_struct.CropList[0].harvest_date)
+            return b
+        T["explicit_default_harvest"] = explicit_harvest_thermal
     return T
 
 
@@ -121,6 +131,9 @@ def run(tier, seed):
              S("Potato", "SandyLoam", seed=seed + 8, regime="arid", irr={"method": 1, "kw": {"SMT": [70] * 4, "WetSurf": 50}}, field={"bunds": True, "z_bund": 0.05}),
              # calendar given in days, converted to thermal time by the model (the conversion must not depend on how the harvest date was given)
              S("Wheat", "SandyLoam", seed=seed + 10, crop_kw={"SwitchGDD": 1}, seasons=2),
+             # an autumn-sown thermal crop over a leap day, with year-to-year temperature differences large enough for the latest harvest date to
+             # end a slow season (the default latest harvest date must be the same date whether derived or stated)
+             S("WheatGDD_1dec", "Loam", seed=4, plant_md=(10, 15), year=2002, seasons=3, regime="temperate", wparams={"yr_amp": 4.0, "tamp": 8.0}),
              # mulches on the fallow field only, fallow days simulated: the in-season mulch settings (switched off) must stay without effect there
              S("Barley", "Loam", seed=seed + 11, regime="warm", off_season=True, lead=40, seasons=2, fallow={"mulches": True, "mulch_pct": 40, "f_mulch": 0.6}),
              # long fallow periods with rain (off-season simulated, start well before planting): the fallow management matters
